@@ -241,6 +241,19 @@ pub enum Slice {
 }
 
 /// Drives the emulator for exactly the requested number of frames. Returns frames completed.
+thread_local! {
+    /// a debugging host that pokes (the value already there) into screen memory while the machine is stopped
+    /// at a breakpoint in the middle of a frame; no emulated time may pass
+    pub static POKE_AT_STOPS: std::cell::Cell<bool> = std::cell::Cell::new(false);
+}
+
+struct SamePoke([rustzx_core::poke::PokeAction; 1]);
+impl rustzx_core::poke::Poke for SamePoke {
+    fn actions(&self) -> &[rustzx_core::poke::PokeAction] {
+        &self.0
+    }
+}
+
 pub fn drive(e: &mut Emu, s: Slice, rng: &mut crate::prng::Rng) -> Result<usize, String> {
     match s {
         Slice::Count(n) => {
@@ -285,7 +298,14 @@ pub fn drive(e: &mut Emu, s: Slice, rng: &mut crate::prng::Rng) -> Result<usize,
                 match e.emulate_frames(LONG) {
                     Ok(i) => match i.stop_reason {
                         EmulationStopReason::Completed => done += 1,
-                        EmulationStopReason::Breakpoint => done += e.verif_passed_frames(),
+                        EmulationStopReason::Breakpoint => {
+                            done += e.verif_passed_frames();
+                            if POKE_AT_STOPS.with(|p| p.get()) && guard % 3 == 0 {
+                                let addr = 0x4000 + ((guard * 37) % 0x1B00) as u16;
+                                let v = e.peek(addr);
+                                e.execute_poke(SamePoke([rustzx_core::poke::PokeAction::mem(addr, v)]));
+                            }
+                        }
                         EmulationStopReason::Timeout => return Err("unexpected timeout".into()),
                     },
                     Err(x) => return Err(format!("emulate_frames: {:?}", x)),
